@@ -37,5 +37,5 @@ for pid in ALL:
         })
     else:
         m["not_applicable"].append({"property_id": pid, "reason": NA_REASON})
-json.dump(m, open('MANIFEST.json', 'w'), indent=1)
+json.dump(m, open('/verif/MANIFEST.json', 'w'), indent=1)
 print("checks:", len(m["checks"]), "not_applicable:", len(m["not_applicable"]))
